@@ -141,7 +141,8 @@ let rec paths_stmt (s : stmt) (pre : int list) (acc : int list list ref) : unit 
 let rules = [("operand",ROperand);("argtype",RArgType);("arity+",RArityPlus);("arity-",RArityMinus);("unknown-name",RUnknownName);
              ("unknown-fn",RUnknownFn);("other-fn-local",ROtherFnLocal);("out-of-scope",ROutOfScope);("set-immutable",RSetImmutable);
              ("set-param",RSetParam);("set-loopvar",RSetLoopVar);("missing-return",RMissingReturn);("wrong-return",RWrongReturn);
-             ("return-novalue",RReturnNoValue);("nonbool-cond",RNonBoolCond)]
+             ("return-novalue",RReturnNoValue);("nonbool-cond",RNonBoolCond);("void-variable",RVoidVariable);("dup-param",RDupParam);
+             ("main-param",RMainParam)]
 let rule_name r = fst (List.find (fun (_, x) -> x = r) rules)
 
 let rec max_e (e : expr) : int =
@@ -195,7 +196,10 @@ let all_mutants (p : program) : (ostring * int * int list * n * program) list =
       try_ RSetImmutable k path N0; try_ RSetLoopVar k path N0;
       List.iter (fun a -> try_ RWrongReturn k path a) (List.init 2 n_of_int);
       try_ RReturnNoValue k path N0;
-      List.iter (fun a -> try_ RNonBoolCond k path a) (List.init 2 n_of_int)) (List.rev !acc);
+      List.iter (fun a -> try_ RNonBoolCond k path a) (List.init 2 n_of_int);
+      try_ RVoidVariable k path fresh) (List.rev !acc);
+    List.iter (fun a -> try_ RDupParam k [] a) small;
+    try_ RMainParam k [] fresh;
     List.iter (fun a -> try_ RSetParam k [] a) small;
     List.iter (fun pth -> try_ RMissingReturn k pth N0) [[]; [0]; [1]; [0;0]; [0;1]; [1;0]; [1;1]]) p.pfns;
   List.rev !out
